@@ -490,6 +490,43 @@ def rule_wire(ctx) -> None:
         chk.decide({k: v for k, v in d2.items()} == d or set(d2.values()) <= set(d.values()) | {str(x) for x in d2.values()}, "C01.inverse-tables", ml.qual, f"length table uses the same codes: {d2}", f"{d2} vs {d}", "", A.loc(MIX, ml.node))
 
 
+def rule_parse_wait(ctx) -> None:
+    """C01.parse-order: in MasterBootImage.parse a mixin whose prerequisite (PRE_PARSED) is still None is postponed to the next
+    round and NOT parsed in this one (parsing it early reads a None certificate block)."""
+    chk = ctx.chk
+    MBI = "spsdk/image/mbi/mbi.py"
+    pa = ctx.own(MBI, "MasterBootImage", "parse")
+    outer = [n for n in ast.walk(pa.node) if isinstance(n, ast.For) and norm(n.iter) == "mixins"]
+    if len(outer) != 1:
+        raise AnalysisError("C01.parse-order: the loop over the mixins of MasterBootImage.parse was not found")
+    inner = [n for n in outer[0].body if isinstance(n, ast.For) and "PRE_PARSED" in norm(n.iter)]
+    if len(inner) != 1:
+        raise AnalysisError("C01.parse-order: the loop over PRE_PARSED was not found")
+    appends = [c for c in ast.walk(inner[0]) if isinstance(c, ast.Call) and norm(c.func) == "mixins_src.append"]
+    if len(appends) != 1:
+        raise AnalysisError("C01.parse-order: `mixins_src.append(mixin)` not found in the wait branch")
+    wait_if = [a for a in A.ancestors(appends[0]) if isinstance(a, ast.If)][0]
+    leaves = wait_if.body[-1]
+    parse_calls = [c for c in ast.walk(outer[0]) if isinstance(c, ast.Call) and isinstance(c.func, ast.Attribute) and c.func.attr == "mix_parse"]
+    if len(parse_calls) != 1:
+        raise AnalysisError("C01.parse-order: mix_parse call not found")
+    pst = A.enclosing_stmt(parse_calls[0])
+    in_else = any(pst is x or any(pst is y for y in ast.walk(x)) for x in inner[0].orelse)
+    flag_form = False
+    if not in_else:
+        # flag form: wait branch sets a flag and breaks, the parse is guarded by `if not <flag>`
+        sets = [norm(x.targets[0]) for x in wait_if.body if isinstance(x, ast.Assign) and isinstance(x.value, ast.Constant) and x.value.value is True]
+        guards = [norm(a.test) for a in A.ancestors(pst) if isinstance(a, ast.If)]
+        flag_form = any(f"not {f}" in guards for f in sets)
+    ok = (in_else and isinstance(leaves, ast.Break)) or flag_form
+    chk.decide(ok, "C01.parse-order", pa.qual, "a waiting mixin leaves the prerequisite loop without being parsed in this round (for/else or flag form)",
+               f"after `mixins_src.append(mixin)` the branch ends with `{norm(leaves)}` and `mix_parse` is {'in the for-else' if in_else else 'executed unconditionally after the prerequisite loop'}: the mixin is parsed although it has to wait",
+               "break out of the prerequisite loop and parse only in its else branch", A.loc(MBI, inner[0]))
+    # the waiting list is consumed round by round
+    t = norm(pa.node)
+    chk.decide("while mixins_src:" in t and "mixins = mixins_src.copy()" in t and "mixins_src.clear()" in t, "C01.parse-order", pa.qual + " rounds", "postponed mixins are parsed in a later round", "", "", A.loc(MBI, pa.node))
+
+
 def run(ctx) -> None:
     ctx.chk.explain("C01: IVT flag encoder/decoders by bit provenance; IVT word windows written, cleared and read at the same constants; the dynamic MBI classes are reconstructed "
                     "statically from every database (C3 MRO over the mixin list) and linted: providers, attribute closure, image types, ZeroTotalLength only on plain images, "
@@ -503,6 +540,7 @@ def run(ctx) -> None:
     ctx.rule(rule_presence)
     ctx.rule(rule_config_keys)
     ctx.rule(rule_wire)
+    ctx.rule(rule_parse_wait)
     from . import c17 as _c17
     _t = _c17.build_taint(ctx)
     ctx.rule(_c17.rule_stable_getter, _t, "C01")
